@@ -58,6 +58,27 @@ theorem exec_ite_err (fuel : Nat) (c : BE) (t f : St) (s : State F) (hok : c.ok 
   simp only [exec, hok]
   simp
 
+theorem exec_setI_eq (fuel : Nat) (x : String) (e : IE) (s : State F) (v : Int) (hok : e.ok s = true)
+    (hv : e.eval s = v) : exec fuel (.setI x e) s = { s with ienv := setS s.ienv x v } := by
+  simp only [exec, hok, hv, if_true]
+
+/-- `a = np.full((d1, d2), fill)` with non-negative extents -/
+theorem exec_allocF2 (fuel : Nat) (a : String) (d1 d2 : IE) (fill : FE) (s : State F) (n1 n2 : Nat)
+    (h1ok : d1.ok s = true) (h2ok : d2.ok s = true) (hf : fill.ok s = true)
+    (h1 : d1.eval s = (n1 : Int)) (h2 : d2.eval s = (n2 : Int)) :
+    exec fuel (.allocF a [d1, d2] fill) s =
+      { s with shp := setS s.shp a [n1, n2], fa := setS s.fa a (List.replicate (n1 * n2) (fill.eval s)) } := by
+  simp [exec, h1ok, h2ok, hf, h1, h2]
+
+theorem iop_sub (a b : Int) : IOp.eval .sub a b = a - b := rfl
+theorem iop_add (a b : Int) : IOp.eval .add a b = a + b := rfl
+
+theorem iop_max (a b : Int) : IOp.eval .max a b = max a b := by
+  simp only [IOp.eval]; split <;> omega
+
+theorem iop_min (a b : Int) : IOp.eval .min a b = min a b := by
+  simp only [IOp.eval]; split <;> omega
+
 /-- the raster double loop: `for vy in range(n): for vx in range(m): body`, where `body` (run with `vy = p`, `vx = q`
     in a state satisfying `Good`) keeps `Good` and `vy`, and stores `val p q` at `arr[p, q]` (flat offset `p * m + q`) -/
 theorem exec_for2_store (fuel : Nat) (vy vx : String) (hiY hiX : IE) (body : St) (arr : String)
